@@ -102,7 +102,7 @@ def oracle(base, ref_info, s, out):
 def run(chk):
     chk.prove()
     rnd = random.Random(chk.seed)
-    nbase, limit = (6, 70) if chk.quick() else (120, 600)
+    nbase, limit = (6, 70) if chk.quick() else (60, 400)
     bases = [build_base(rnd) for _ in range(nbase)]
     lines, impl, refouts = session.run(chk, bases, stream="session-torn-ref")
     cases = []
